@@ -55,6 +55,8 @@ fn get_pid_listeners<'a>() -> &'a Arc<DashMap<ActorId, ActorCell>> {
 }
 
 pub(crate) fn register_pid(id: ActorId, actor: ActorCell) -> Result<(), super::ActorRegistryErr> {
+    #[cfg(feature = "verif")]
+    crate::verif::point(crate::verif::pt::PID_REGISTER, crate::verif::id_u64(&id), 0);
     if id.is_local() {
         match get_pid_registry().entry(id) {
             Occupied(_o) => Err(super::ActorRegistryErr::AlreadyRegistered(format!(
@@ -80,6 +82,8 @@ pub(crate) fn register_pid(id: ActorId, actor: ActorCell) -> Result<(), super::A
 }
 
 pub(crate) fn unregister_pid(id: ActorId) {
+    #[cfg(feature = "verif")]
+    crate::verif::point(crate::verif::pt::PID_UNREGISTER, crate::verif::id_u64(&id), 0);
     if id.is_local() {
         if let Some((_, cell)) = get_pid_registry().remove(&id) {
             // notify lifecycle listeners
@@ -132,4 +136,10 @@ pub fn monitor(actor: ActorCell) {
 /// * `actor` - The [ActorCell] representing who was receiving updates
 pub fn demonitor(actor: ActorId) {
     let _ = get_pid_listeners().remove(&actor);
+}
+
+/// Ids of the actors currently monitoring pid lifecycle events
+#[cfg(feature = "verif")]
+pub fn verif_listeners() -> Vec<ActorId> {
+    get_pid_listeners().iter().map(|e| *e.key()).collect()
 }
